@@ -291,7 +291,8 @@ def run(pid, argv, *, module, theorems, gen, oracle, rule, nontrivial, extra_tar
     model = None
     if not any(b.startswith("model does not compile") for b in broken):
         try:
-            model = reactive.run_model(pid, progs)
+            # the model disposes the root scope at the end of every scenario, as the driver does through the RootHandle
+            model = reactive.run_model(pid, [p + [("dispose", 0)] for p in progs])
         except RuntimeError as e:
             broken.append("model evaluation: " + str(e)[-600:])
             chk.obligation("model evaluation", False, str(e))
@@ -325,8 +326,9 @@ def run(pid, argv, *, module, theorems, gen, oracle, rule, nontrivial, extra_tar
     mism = []
     orfail = []
     dist = {}
-    for i, ((tag, prog), lines) in enumerate(zip(cases, impl_raw)):
-        steps = reactive.split_steps(lines)
+    for i, ((tag, prog), lines_all) in enumerate(zip(cases, impl_raw)):
+        lines, root_events, root_status = reactive.split_root(lines_all)
+        steps = steps_of(lines_all)
         key = reactive.sx_stmts(prog)
         chk.note_case(key, nontrivial(prog, steps))
         last = steps[-1]["panic"] if steps and steps[-1]["panic"] else "completed"
@@ -343,6 +345,19 @@ def run(pid, argv, *, module, theorems, gen, oracle, rule, nontrivial, extra_tar
                 orfail.append(f)
         if model is not None:
             norm = reactive.normalize_impl(lines)
+            # the model's program ends with the disposal of the root scope: its events must be those of the real root disposal
+            mlines = model[i]
+            completed = bool(lines) and lines[-1].startswith("snap ") and len(reactive.split_steps(mlines)) == len(prog) + 1
+            if completed and root_events is not None:
+                cut = max(j for j, l in enumerate(mlines[:-1]) if l.startswith("snap ")) + 1 if any(l.startswith("snap ") for l in mlines[:-1]) else 0
+                m_root = [l for l in mlines[cut:] if not l.startswith("snap ") and not l.startswith("panic ")]
+                m_status = "ok" if mlines[-1].startswith("snap ") else mlines[-1]
+                r_norm = reactive.normalize_impl(root_events)
+                if r_norm != m_root or root_status.startswith("ok") != (m_status == "ok"):
+                    mism.append({"case": i, "tag": tag, "program": key, "what": "disposal of the root (RootHandle::dispose) at the end of the scenario",
+                                 "impl": r_norm[:6] + [root_status], "model": m_root[:6] + [m_status]})
+                mlines = mlines[:cut]
+            model[i] = mlines
             if norm != model[i]:
                 d = next((j for j, (x, y) in enumerate(zip(norm, model[i])) if x != y), min(len(norm), len(model[i])))
                 mism.append({"case": i, "tag": tag, "program": key, "first_difference_at_line": d,
@@ -360,7 +375,7 @@ def run(pid, argv, *, module, theorems, gen, oracle, rule, nontrivial, extra_tar
         prog0 = cases[f0["case"]][1]
 
         def failing(cand):
-            st = reactive.split_steps(reactive.run_impl(binp, [cand])[0])
+            st = steps_of(reactive.run_impl(binp, [cand])[0])
             return any(not (g.get("known") in fkeys) and g["oracle"] == f0["oracle"] for g in oracle(cand, st))
         small = minimise(binp, prog0, failing)
         lines = reactive.run_impl(binp, [small])[0]
@@ -607,6 +622,17 @@ def write_rerun_failures(prog, steps):
     return fails
 
 
+def steps_of(lines_all):
+    """steps of a scenario, plus a final pseudo-step for what happened while the root was disposed through its RootHandle"""
+    lines, root_events, root_status = reactive.split_root(lines_all)
+    steps = reactive.split_steps(lines)
+    if root_events is not None:
+        ok = root_status.startswith("ok")
+        stale = root_status.split("stale_alive=")[1] if "stale_alive=" in root_status else None
+        steps.append({"events": root_events, "snap": None, "panic": None if ok else root_status, "root_dispose": True, "stale_alive": stale})
+    return steps
+
+
 def ownership_failures(prog, steps):
     """C04 oracle (accounting): cleanups never run more often than registered, and exactly as often once the root is
     disposed; live nodes = nodes reachable through ownership; no dead subscribers; nothing alive after root disposal."""
@@ -621,6 +647,19 @@ def ownership_failures(prog, steps):
                 cl[f[1]] = cl.get(f[1], 0) + 1
                 if cl[f[1]] > reg.get(f[1], 0):
                     fails.append({"oracle": "cleanup-at-most-once", "step": k, "label": f[1], "known": None})
+        if st.get("root_dispose"):
+            # RootHandle::dispose at the end of the scenario: it must complete, and every cleanup registered so far has run exactly once
+            if st["panic"] and "RUNTIME" in st["panic"]:
+                fails.append({"oracle": "root-disposal-completes", "step": "end (RootHandle::dispose)", "panic": st["panic"], "known": None})
+            if st["panic"]:
+                break          # a cleanup of the program panicked by its own fault (e.g. it read a signal it had disposed): nothing to demand
+            if st.get("stale_alive") not in (None, "0"):
+                fails.append({"oracle": "destroyed-handles-not-alive", "step": "end (after RootHandle::dispose, new nodes created in the re-initialised root)",
+                              "handles_reporting_alive": st["stale_alive"], "known": None})
+            for lab, c in reg.items():
+                if cl.get(lab, 0) != c:
+                    fails.append({"oracle": "cleanup-exactly-once", "step": "end (RootHandle::dispose)", "label": lab, "registered": c, "ran": cl.get(lab, 0), "known": None})
+            break
         if st["snap"] is None:
             break
         sn = st["snap"]
